@@ -45,5 +45,6 @@ package topo
 
 //@ iface Store.List(ctx, filters) (result, err)
 //@   modifies nothing
+//@   ensures errWF(err)
 //@   ensures err != nil ==> len(result) == 0
 //@   ensures result == nil || fresh(arrOf(result))
